@@ -265,6 +265,27 @@ def c09(run, replay=None):
             if shared_multi <= 5:
                 run.violation("nondeterministic: a document whose option descriptions share a name, with %r, gave %d different outcomes: %s" % (argv, len(list(o)), json.dumps(list(o))[:300]),
                               dict(script=text, argv=argv, outcomes=list(o)))
+    # WHICH description answers when a name is shared: the code's choice (read off the normalised arguments, hook) must be
+    # the one of OptLookup.ofind_min - the smallest matching description in the derived order of OptionArg
+    single = [(text, argv) for text, argv in shared if len(argv) == 1 and argv[0].startswith("-") and "=" not in argv[0] and (argv[0].startswith("--") or len(argv[0]) == 2)]
+    fouts = C.run_harness("docopt", [dict(file=text, args=argv, trace=True) for text, argv in single], per_case_timeout=20)
+    flines, fidx = [], []
+    for i, o in enumerate(fouts):
+        if o.get("crash") or not o.get("tail") or "ok" not in (o.get("outs") or [{}])[0]:
+            continue
+        argvn, opts = o["tail"]
+        if len(argvn) != 1:
+            continue
+        flines.append(sx(["optfind", ["opts"] + [[k, hx(s_) if s_ is not None else "none", hx(l) if l is not None else "none", hx(d) if d is not None else "none"] for k, s_, l, d in opts], hx(single[i][1][0])]))
+        fidx.append(i)
+    lookup_checked = 0
+    for i, mo in zip(fidx, C.run_oracle(flines)):
+        lookup_checked += 1
+        want = None if mo == "none" else unhx(mo).decode()
+        got = fouts[i]["tail"][0][0].split("=")[0]
+        if want != got:
+            run.violation("option-lookup: with %r the code answers with the description %r, the mirror of the repaired Options::find (smallest matching description) says %r" % (single[i][1], got, want),
+                          dict(script=single[i][0], argv=single[i][1], normalised=fouts[i]["tail"][0], descriptions=fouts[i]["tail"][1]))
     # the order in which the code tries the expanded usages (hook) must be the model's canonical sorted
     # order: ties the Coq `sort`/`choose` of Order.v to docopt::parse
     tsel = [r for r in chosen if "ok" in r["outs"][0]]
@@ -296,7 +317,7 @@ def c09(run, replay=None):
              "(every HashSet gets fresh RandomState keys), in a process different from the first parse; any two differing outcomes are a violation. "
              "non-trivial = re-parsed pairs for which the reference has more than one binding (several usage patterns could match)" % rep,
              dict(pairs_with_more_than_one_outcome=multi, reparsed_pairs=len(chosen), repeats=rep, usage_orders_checked_against_model=order_checked,
-                  documents_with_shared_option_names=len(shared), of_them_nondeterministic=shared_multi))
+                  documents_with_shared_option_names=len(shared), of_them_nondeterministic=shared_multi, shared_name_lookups_checked_against_model=lookup_checked))
 
 
 # ---------------------------------------------------------------- C10
